@@ -368,6 +368,7 @@ pub fn check_chunker(case: &StreamCase) -> CaseResult {
         };
         for _ in 0..(2 * stream.len() + 16) {
             let before = owning_iovec::verif::retired_chunks().len();
+            let block = case.delivery.block_size_at(passes.get()).unwrap_or(hcobs::DEFAULT_BLOCK_SIZE);
             let c = chunker.pump(&mut arena, &mut reader, block).map_err(|e| Fail::new("chunker:io-error", e.to_string()))?;
             if owning_iovec::verif::retired_chunks().len() > before {
                 retired_midway = true;
@@ -426,7 +427,8 @@ pub fn check_chunker(case: &StreamCase) -> CaseResult {
 pub fn check_reader(case: &StreamCase) -> CaseResult {
     with_quarantine(|| {
         let stream = case.stream.bytes();
-        let block = case.delivery.block_size();
+        let _ = case.delivery.block_size();
+        let mut calls = 0usize;
         let lent = [range_of(&stream)];
         let mut reader = CyclicReader::new(&stream, &case.delivery);
         let mut sr = StreamReader::new();
@@ -456,6 +458,8 @@ pub fn check_reader(case: &StreamCase) -> CaseResult {
         };
         for _ in 0..(stream.len() + 4) {
             let before = owning_iovec::verif::retired_chunks().len();
+            let block = case.delivery.block_size_at(calls);
+            calls += 1;
             let r = sr.next_record_bytes(&mut reader, &judge, block).map_err(|e| Fail::new("reader:io-error", e.to_string()))?;
             if owning_iovec::verif::retired_chunks().len() > before {
                 retired_midway = true;
